@@ -500,6 +500,10 @@ func (w *c14World) generate(rng *rand.Rand, registryWrites bool) *c14Program {
 				prog = append(prog, &rhp3.InstrReadRegistry{PublicKeyOffset: off(c14SlotKey), PublicKeyLength: keylen(), TweakOffset: off(c14SlotTweak), Version: uint8(rng.Intn(4))})
 			}
 		default:
+			if !registryWrites {
+				prog = append(prog, &rhp3.InstrHasSector{MerkleRootOffset: hashoff()})
+				break
+			}
 			dl := uint64(32)
 			if rng.Intn(5) == 0 {
 				dl = c14Operand(rng, uint64(dn))
